@@ -477,6 +477,12 @@ handle_signals (void)
                 strsignal (sig));
     }
     xsignal_ignore (SIGPIPE);
+#ifdef SIGXFSZ
+    /*  Have a write() to a log file that has reached a file size limit fail
+     *    with EFBIG (which logging tolerates) instead of killing the daemon.
+     */
+    xsignal_ignore (SIGXFSZ);
+#endif /* SIGXFSZ */
     return;
 }
 
